@@ -25,7 +25,7 @@ STRUCT_WITHOUT = tskit.MetadataSchema(
     {"codec": "struct", "type": "object", "properties": {"k": {"type": "integer", "binaryFormat": "i"}}}
 )
 
-X_VARIANTS = ["plain", "rich", "struct", "rawbytes", "migrations", "mono_sites", "states", "edge_md"]
+X_VARIANTS = ["plain", "rich", "struct", "rawbytes", "migrations", "mono_sites", "states", "edge_md", "redated"]
 
 
 def _set_md(table, schema, rows):
@@ -85,6 +85,13 @@ def decorate(ts, variant, diploid=False):
         t.mutations.clear()
         for i, m in enumerate(muts):
             t.mutations.append(m.replace(derived_state=der[i % 4]))
+    elif variant == "redated":
+        # the state left by an earlier tsdate run followed by user annotation (or by preprocess_ts, which adds
+        # unsplit_node_id): tsdate's own default schemas, rows holding mn/vr AND other keys
+        from tsdate import schemas
+
+        _set_md(t.nodes, schemas.default_node_schema, [{"mn": 1.0 + u, "vr": 0.5, "unsplit_node_id": u, "note": f"n{u}"} for u in range(t.nodes.num_rows)])
+        _set_md(t.mutations, schemas.default_mutation_schema, [{"mn": 0.5, "vr": 0.25, "annot": m} for m in range(t.mutations.num_rows)])
     elif variant == "edge_md":
         _set_md(t.edges, PERMISSIVE, [{"e": e} for e in range(t.edges.num_rows)])
     else:
